@@ -27,7 +27,7 @@ impl FixtureDatabase {
             file_path, line, character
         );
 
-        let target_line = (line + 1) as usize; // Convert from 0-based to 1-based
+        let target_line = line as usize + 1; // Convert from 0-based to 1-based
 
         let content = self.get_file_content(file_path)?;
         let line_content = content.lines().nth(target_line.saturating_sub(1))?;
@@ -107,7 +107,7 @@ impl FixtureDatabase {
         }
 
         // If not a usage, check if we're on a fixture definition line
-        let target_line = (line + 1) as usize; // Convert from 0-based to 1-based
+        let target_line = line as usize + 1; // Convert from 0-based to 1-based
         let content = self.get_file_content(file_path)?;
         let line_content = content.lines().nth(target_line.saturating_sub(1))?;
         let word_at_cursor = self.extract_word_at_position(line_content, character as usize)?;
@@ -299,7 +299,7 @@ impl FixtureDatabase {
         line: u32,
         character: u32,
     ) -> Option<String> {
-        let target_line = (line + 1) as usize;
+        let target_line = line as usize + 1;
 
         debug!(
             "find_fixture_at_position: file={:?}, line={}, char={}",
@@ -587,7 +587,7 @@ impl FixtureDatabase {
         character: u32,
     ) -> Option<CompletionContext> {
         let content = self.get_file_content(file_path)?;
-        let target_line = (line + 1) as usize;
+        let target_line = line as usize + 1;
 
         // Try AST-based analysis first
         let parsed = self.get_parsed_ast(file_path, &content);
@@ -1382,7 +1382,7 @@ impl FixtureDatabase {
         // Try cache first, then file system
         let content = self.get_file_content(file_path)?;
 
-        let target_line = (line + 1) as usize; // Convert to 1-based
+        let target_line = line as usize + 1; // Convert to 1-based
 
         // Parse the file (using cached AST)
         let parsed = self.get_parsed_ast(file_path, &content)?;
